@@ -129,7 +129,78 @@ def e2e_one(chk, sseed):
         w.destroy()
 
 
+def halfsynced_one(chk, sseed):
+    """two runs; in the second the Release has advanced but, for some index groups, the preferred variant's URL still answers
+    with the previous version's file under its previous Last-Modified, with or without a Content-Length (a half-synced mirror,
+    a CDN cache): it must not be published under the new Release, the other variants must be used instead"""
+    import os
+    from core import vloop
+    from e2e import common, runner, scenario
+    rng = random.Random(sseed)
+    w = common.World(rng, 1)
+    try:
+        repo = w.repos[0]
+        url = repo["url"]
+        for cs in repo["codenames"].values():
+            if len(cs["compressions"]) < 2:
+                cs["compressions"] = [".xz", ".gz"]
+        r1 = w.run(chooser=vloop.RandomChooser(rng.randrange(1 << 30)))
+        old = w.stores()[url]
+        new = common.evolve(rng, repo)
+        for cs in new["codenames"].values():
+            cs["compressions"] = list(repo["codenames"][next(iter(repo["codenames"]))]["compressions"]) if False else cs["compressions"]
+        store = w.stores([new])[url]
+        plan, stale = [], {}
+        groups = scenario.required_objects(new, w.cfgs[url], store)
+        kind = rng.choice(["stale", "stale-no-length", "stale-no-length"])
+        for g in groups:
+            if len(g["urls"]) < 2:
+                continue
+            u = sorted(g["urls"], key=lambda x: (not x.endswith(".xz"), not x.endswith(".gz"), not x.endswith(".bz2")))[0]
+            if u in old and old[u][0] != store[u][0] and rng.random() < 0.7:
+                stale[u] = old[u]
+                plan.append([u, "*", kind])
+                for a in scenario.byhash_aliases(store, u):
+                    plan.append([a, "*", "404"])
+        if not stale:
+            chk.evaluated(None)
+            chk.count("halfsynced:nothing-changed")
+            return
+        res = run_e2e_execute(w, [new], {url: store}, {url: plan}, vloop.RandomChooser(rng.randrange(1 << 30)), {url: stale})
+        replay = {"scenario_seed": sseed, "halfsynced": True, "lines": w.lines, "kind": kind, "stale_urls": sorted(stale)}
+        m = runner.mirror_dir(w.sb, url)
+        if res.exit != 0:
+            chk.violation("halfsynced:other-variants-not-used", replay, f"exit {res.exit}: every group has a healthy variant, the stale preferred one must not fail the run")
+        for cn in w.cfgs[url]["codenames"]:
+            ddir = os.path.join(m, "dists", cn)
+            relp = next((os.path.join(ddir, n) for n in ("InRelease", "Release") if os.path.exists(os.path.join(ddir, n))), None)
+            if relp and res.exit == 0:
+                fields, entries = fsckmod.parse_release(open(relp, encoding="utf-8").read())
+                for algo, h, size, name in entries:
+                    p = os.path.join(ddir, name)
+                    if size and size > 0 and name not in fsckmod.RELEASE_NAMES and os.path.isfile(p) and fsckmod.lex_safe(name):
+                        chk.count("published_variants_checked")
+                        if os.path.getsize(p) != size:
+                            chk.violation("published-variant-wrong-size", replay,
+                                          f"{cn}/{name} is published with {os.path.getsize(p)} bytes, the Release entry says {size} (stale {kind})")
+        probs = w.fsck(url) if res.exit == 0 else []
+        if probs:
+            chk.violation("halfsynced:fsck-dirty", replay, probs[0])
+        chk.evaluated(("halfsynced", kind, len(stale)), sample={"halfsynced": kind, "stale": sorted(stale)[:2], "exit": res.exit})
+        chk.count("halfsynced_runs")
+        chk.traces += 2
+    finally:
+        w.destroy()
+
+
+def run_e2e_execute(w, repos, stores, plans, chooser, stale):
+    from e2e import run_e2e
+    return run_e2e.execute(w.sb, repos, stores, plans, chooser, stale=stale)
+
+
 def run(chk, tier, rng):
+    for i in range(20 if tier == "quick" else 400):
+        halfsynced_one(chk, f"C10h-{chk.seed}-{i}")
     n = 120 if tier == "quick" else 3000
     for i in range(n):
         check_one(chk, random.Random(f"C10-{chk.seed}-{i}"))
